@@ -50,6 +50,18 @@ def cases(ctx):
                 at = next(k for k, c in enumerate(m["commands"]) if c["cmd"] != "EEMSRead") if any(c["cmd"] != "EEMSRead" for c in m["commands"]) else len(m["commands"])
                 m["commands"][at:at] = [{"result": "PosSq", "cmd": "Multiply", "args": {"InFieldNames": [pos[0], pos[0]]}},
                                         {"result": "PosDif", "cmd": "AMinusB", "args": {"A": pos[0], "B": "PosSq"}}]
+        if i % 40 == 5:
+            # whole numbers beyond 2^53 that the file holds exactly, cut by a whole threshold between two of them
+            base = 2 ** rng.choice([53, 54, 60])
+            step = base // 2 ** 52
+            vals = [base - step, base, base + step, base + 2 * step, 7]
+            rng.shuffle(vals)
+            th = base + rng.choice([1, -1]) if step > 1 else base + 1
+            m = {"table": {"cols": {"X0": {"data": vals, "integer": True}}, "nrows": len(vals), "missing": None, "file": "in.csv", "step": step},
+                 "commands": [{"result": "In_X0", "cmd": "EEMSRead", "args": {"InFileName": "in.csv", "InFieldName": "X0", "DataType": "Integer"}},
+                              {"result": "Low", "cmd": "CvtToBinary", "args": {"InFieldName": "In_X0", "Threshold": th, "Direction": "LowToHigh"}},
+                              {"result": "High", "cmd": "CvtToBinary", "args": {"InFieldName": "In_X0", "Threshold": th, "Direction": "HighToLow"}},
+                              {"result": "Either", "cmd": "FuzzyOr", "args": {"InFieldNames": ["Low", "High"]}}]}
         if i % 4 != 3 and i % 7 == 2:
             # the table is named through a symbolic link and "..": the file the operating system finds there is the input
             m["table"]["via_symlink"] = True
@@ -268,7 +280,7 @@ def run_case(ctx, case):
     # file (the node postconditions compare every read with the table as it is now)
     changed = copy.deepcopy(model)
     for c in changed["table"]["cols"].values():
-        c["data"] = [(v + 1 if v != changed["table"]["missing"] else v) for v in reversed(c["data"])]
+        c["data"] = [(v + changed["table"].get("step", 1) if v != changed["table"]["missing"] else v) for v in reversed(c["data"])]
     same_dir = ctx.scratch()
     first = _run_variant(ctx, model, same_dir, "same-path-first", check_nodes=False)
     second = _run_variant(ctx, changed, same_dir, "same-path-changed-table", check_nodes=True)
